@@ -302,6 +302,52 @@ def run_trace(chk, rnd):
     chk.sample({"trace_event": e["ev"], "x": [float(pfhelp.undy(v)) for v in e["x"]], "y": [float(pfhelp.undy(v)) for v in e["y"]]})
 
 
+def run_histories(chk, rnd):
+    """Sequences on ONE object: a conversion, then a sanctioned change of that object (in-place ufunc /
+    out=, pol_type assignment), then the conversion again.  The second result must be what a fresh
+    object holding the new state gives (nothing remembered from the first call)."""
+    import common
+    from common import pb, u, Time
+    n = 0
+    convs = [("to_stokes", lambda z: z.to_stokes()), ("to_intensity", lambda z: z.to_intensity()),
+             ("to_circular", lambda z: z.to_circular()), ("to_linear", lambda z: z.to_linear()),
+             ("stokesI", lambda z: z.to_stokes()["I"])]
+    for rep in range(12 if chk.tier == "quick" else 120):
+        dtype = rnd.choice(["complex128", "complex64"])
+        shape = rnd.choice([(5, 2, 2), (4, 1, 2, 3), (3, 3, 2)])
+        rs = np.random.default_rng(rnd.randrange(1 << 30))
+        data = (rs.integers(-3, 4, shape) + 1j * rs.integers(-3, 4, shape)).astype(dtype)
+        for basis in ("linear", "circular"):
+            for cname, conv in convs:
+                for change in ("inplace_mul", "out_add", "pol_type"):
+                    z = pb.DualPolarizationSignal(data.copy(), sample_rate=1 * u.MHz, center_freq=1 * u.GHz,
+                                                  pol_type=basis, start_time=common.EPOCHS[0])
+                    conv(z)
+                    if change == "inplace_mul":
+                        z *= 2
+                    elif change == "out_add":
+                        np.add(z, 1 - 2j, out=z)
+                    else:
+                        z.pol_type = "circular" if basis == "linear" else "linear"
+                    got = conv(z)
+                    fresh = pb.DualPolarizationSignal(np.array(z.data, copy=True), sample_rate=z.sample_rate,
+                                                      center_freq=z.center_freq, pol_type=z.pol_type,
+                                                      start_time=z.start_time)
+                    exp = conv(fresh)
+                    n += 1
+                    same = type(got) is type(exp) and got.shape == exp.shape and \
+                        np.array_equal(np.asarray(got.data), np.asarray(exp.data)) and \
+                        getattr(got, "pol_type", None) == getattr(exp, "pol_type", None)
+                    if not same:
+                        chk.violation("history:%s-after-%s" % (cname, change),
+                                      "%s after %s on the same object differs from the same conversion of a fresh "
+                                      "object with the new state (basis %s, %s)" % (cname, change, basis, dtype),
+                                      {"kind": "history", "conv": cname, "change": change, "basis": basis,
+                                       "dtype": dtype, "shape": list(shape)})
+    chk.validated += n
+    chk.notes["history_sequences"] = n
+
+
 def run(chk):
     rnd = random.Random(chk.seed)
     negs = {}
@@ -314,6 +360,7 @@ def run(chk):
     chk.notes["negative_models_rejected"] = negs
     run_gen(chk, rnd)
     run_trace(chk, rnd)
+    run_histories(chk, rnd)
     chk.assumptions += [
         "TLC explores spec/Pol.tla exhaustively for Gaussian-integer samples of the stated range only; arbitrary float "
         "samples are covered by sampled trace validation",
@@ -325,6 +372,13 @@ def run(chk):
 def replay(doc):
     import common
     c = doc["case"]
+    if c["kind"] == "history":
+        chk = framework.Check(PID, "quick", 0)
+        chk._known = []
+        run_histories(chk, random.Random(0))
+        bad = [v for v in chk.violations if v[0] == doc["key"]]
+        print("VIOLATION property=C13 replay=(this case)  # %s" % doc["key"] if bad else "case passes")
+        return 1 if bad else 0
     if c["kind"] == "gen":
         chk = framework.Check(PID, "quick", 0)
         chk._known = []
